@@ -15,7 +15,7 @@ fn eprint_stub(_a: core::fmt::Arguments<'_>) {}
 // @harness c01_read_dispatch
 // @props C01 C09 C10
 // @tier quick
-// @cost 60
+// @cost 18
 // @timeout 900
 // @needs DR
 // @desc the whole body of do_read (the four leaf readers shimmed) for every spec-valid L2 entry: a data cluster is read from its host cluster at the request's in-cluster offset; zero-flagged and unallocated clusters (no backing file) are zero-filled; an unallocated cluster of an image with a backing file is read from the backing chain at the SAME guest offset; a compressed cluster is inflated from its descriptor (host offset and length per the spec); always the whole piece, exactly one leaf operation
@@ -69,7 +69,7 @@ fn c01_read_dispatch() {
 // @harness c01_write_dispatch
 // @props C01 C10
 // @tier quick
-// @cost 60
+// @cost 17
 // @timeout 900
 // @needs DW
 // @desc the whole body of do_write (leaf writers shimmed) for every spec-valid L2 entry handed to it: a data cluster is written in place at the request's guest offset (the leaf derives host + in-cluster offset); compressed clusters and -- on an image with a backing file -- unallocated clusters go through copy-on-write; for anything else (zero-flagged entries, unallocated entries without backing file: clusters that should have been given a mapping first) a refusal writes nothing
@@ -120,7 +120,7 @@ fn c01_write_dispatch() {
 // @harness c14_device_sizing
 // @props C14 C09
 // @tier quick
-// @cost 60
+// @cost 19
 // @timeout 900
 // @needs N0
 // @desc the sizing statements of Qcow2Dev::new (from `let h = &header` up to the construction of the device, lifted verbatim) on every header that from_buf accepts and every legal parameter set: no panic or overflow; the in-ram L1 table and refcount table sizes are non-zero (a zero size trips the buffer allocator's assert), block aligned, and bounded by the format limits (32 MiB L1, 8 MiB refcount table) -- not by anything an attacker controls beyond them
